@@ -109,8 +109,23 @@ func (fr *Frame) applyContract(cx *callCtx, con *Contract) []Term {
 	callee := cx.callee
 	pre := cx.st.clone()
 	env := &specEnv{eng: e, fr: nil, fn: callee, st: cx.st, old: pre, vars: map[string]binding{}, pkg: con.Pkg, con: con, atFresh: map[string]sval{}}
-	for i, p := range callee.Params {
-		env.vars[p.Name()] = binding{cx.args[i], p.Type()}
+	if callee != nil {
+		for i, p := range callee.Params {
+			env.vars[p.Name()] = binding{cx.args[i], p.Type()}
+		}
+	} else {
+		// interface method (trusted contract): named parameters of the method signature, $0 = receiver
+		env.resSig = cx.sig.Results()
+		for i := 0; i < cx.sig.Params().Len(); i++ {
+			if n := cx.sig.Params().At(i).Name(); n != "" && n != "_" {
+				env.vars[n] = binding{cx.args[i+1], cx.sig.Params().At(i).Type()}
+			}
+		}
+		for i, a := range cx.args {
+			if i < len(cx.argTs) {
+				env.args = append(env.args, sval{t: a, typ: cx.argTs[i]})
+			}
+		}
 	}
 	ord := e.callOrd(fr, cx.name)
 	// preconditions are obligations of the caller
